@@ -29,9 +29,10 @@ const (
 	pfUndecodable        // ERROR frame with an error code the driver does not know: parseFrame returns an error
 	pfOtherKind          // RESULT/SetKeyspace("pf-<serial>"): a frame, but neither PREPARED nor an error
 	pfSilent             // no answer: Conn.exec ends with ErrTimeoutNoResponse (only in worlds with a short timeout)
+	pfClosed             // no answer: the server closes every connection of the host instead (connection loss)
 )
 
-var pfWords = []string{"frame", "undecodable", "other-kind", "silent"}
+var pfWords = []string{"frame", "undecodable", "other-kind", "silent", "closed"}
 
 const (
 	tSmallint = 0x0013
@@ -93,6 +94,9 @@ func failedPrepareReply(kind, serial int) (byte, []byte) {
 	}
 	return memcluster.OpError, memcluster.ErrorBody(memcluster.ErrOverloaded, fmt.Sprintf("pf-%d", serial), nil)
 }
+
+// connection-loss errors as callers see them (the flight's error, Conn.exec's, the pool's)
+var connLostRe = regexp.MustCompile(`EOF|closed pipe|connection closed|closed network connection|no hosts available|no connections|broken pipe`)
 
 var (
 	undecRe  = regexp.MustCompile(`unknown error code: 0x7e([0-9a-f]{6})`)
